@@ -1013,8 +1013,15 @@ func ftRunCase(c *engine.Ctx, agg *ftAgg, cs ftCase) (int, bool) {
 	}
 	if cs.Pos == 0 {
 		if (cerr != nil) != fl.refErr {
-			r.Broken(fmt.Sprintf("faults: fault-free reference run of flow %s (back end %s, wrapper %v) returned error=%v, expected error=%v", cs.Flow, cs.Backend, cs.Wrap, cerr, fl.refErr))
-			return count, false
+			if fl.refErr {
+				// an observation flow whose fault-free run is expected to be refused was not refused on this
+				// tree: that is for the property that owns the refusal to judge (C06), not a harness defect;
+				// the positions of this flow are still enumerated against the outcome that was observed
+				r.Count("observation_flow_not_refused_without_fault:"+cs.Flow, 1)
+			} else {
+				r.Violation("fault-free-call-failed:"+cs.Flow, fmt.Sprintf("NO fault injected: flow %s (back end %s, wrapper %v) failed: %v", cs.Flow, cs.Backend, cs.Wrap, cerr), cs)
+				return count, false
+			}
 		}
 		if count == 0 {
 			r.Broken("faults: reference run of flow " + cs.Flow + " performed no storage operation")
